@@ -16,6 +16,8 @@ func init() {
 		Rules: func(r *Run) {
 			rulePVGo(r)
 			ruleMergeIter(r)
+			ruleOpenLogContext(r)
+			ruleRecordOrigin(r)
 		},
 	})
 }
